@@ -473,6 +473,60 @@ def h_convert_generated(eng, ua, ub, form):
         eng.prove(Eq(back.magnitude, x), "convert-round-trip")
 
 
+def h_convert_scaled_reference(eng, form):
+    """offset units whose reference units differ (one sits on the root unit, one on a scaled unit
+    of the same dimension): the conversion goes reference -> reference in between"""
+    s1, o1, s3, s4, o4, x = (eng.real(n) for n in ("s1", "o1", "s3", "s4", "o4", "x"))
+    for sv in (s1, s3, s4):
+        eng.assume(sv > 0)
+    for ov in (o1, o4):
+        eng.assume(Not(Eq(ov, 0)))  # (an offset of zero makes a plain multiplicative unit)
+    L = eng.lit
+    lines = ["kel = [temp] = KL", f"rank = {L(s3)} * kel = RK", f"degA = {L(s1)} * kel; offset: {L(o1)} = dgA", f"degR = {L(s4)} * rank; offset: {L(o4)} = dgR", f"degS = 2 * degR_ref; offset: {L(o1)}", "degR_ref = 3 * rank"]
+    ureg = regs.build(eng, lines)
+    to_kel = {"degA": lambda t: s1 * t + o1, "degR": lambda t: s3 * (s4 * t + o4), "kel": lambda t: t, "rank": lambda t: s3 * t, "degS": lambda t: 3 * s3 * (2 * t + o1)}
+    from_kel = {"degA": lambda k: (k - o1) / s1, "degR": lambda k: (k / s3 - o4) / s4, "kel": lambda k: k, "rank": lambda k: k / s3, "degS": lambda k: (k / (3 * s3) - o1) / 2}
+    import numpy as np
+
+    for ua in to_kel:
+        for ub in to_kel:
+            if ua == ub:
+                continue
+            want = from_kel[ub](to_kel[ua](x))
+            if form == "to":
+                got = ureg.Quantity(x, ua).to(ub).magnitude
+            elif form == "convert":
+                got = ureg.convert(x, ua, ub)
+            else:
+                q = ureg.Quantity(np.array([x, x], dtype=object), ua)
+                q.ito(ub)
+                got = q.magnitude[1]
+            eng.prove(Eq(got, want), f"scaled-reference:{form}:{ua}->{ub}")
+    # delta units of an offset unit on a scaled reference
+    eng.prove(Eq(ureg.Quantity(x, "delta_degR").to("kel").magnitude, s3 * s4 * x), f"scaled-reference:{form}:delta_degR->kel")
+    eng.prove(Eq(ureg.Quantity(x, "delta_degR").to("delta_degA").magnitude, s3 * s4 * x / s1), f"scaled-reference:{form}:delta_degR->delta_degA")
+
+
+def h_log_scaled_reference(eng):
+    """two logarithmic units whose reference units differ (milliwatt / kilowatt), float registry"""
+    import math
+
+    import pint
+
+    ureg = pint.UnitRegistry()
+    ureg.define("decibelkilowatt = 1 kilowatt; logbase: 10; logfactor: 10 = dBkW")
+    ureg.define("neperkilowatt = 1 kilowatt; logbase: 2.71828182845904523536028747135266249775724709369995; logfactor: 0.5 = NpkW")
+    for v in (0.0, 3.0, -12.5):
+        for src, dst, fn in (("dBkW", "dBm", lambda t: t + 60.0), ("dBm", "dBkW", lambda t: t - 60.0), ("dBkW", "dBW", lambda t: t + 30.0), ("dBkW", "NpkW", lambda t: t * math.log(10) / 20)):
+            got = ureg.Quantity(v, src).to(dst).magnitude
+            eng.prove(math.isclose(got, fn(v), rel_tol=1e-9, abs_tol=1e-9), f"log-scaled-reference:{src}->{dst}:{v}")
+            import numpy as np
+
+            q = ureg.Quantity(np.array([v, v]), src)
+            q.ito(dst)
+            eng.prove(math.isclose(q.magnitude[1], fn(v), rel_tol=1e-9, abs_tol=1e-9), f"log-scaled-reference:ito-array:{src}->{dst}:{v}")
+
+
 def h_convert_compound(eng, autoconvert):
     """compound units with offset units: conversion is refused (DimensionalityError) except a
     single first-power offset unit in a product under autoconvert mode"""
@@ -511,6 +565,24 @@ def h_convert_compound(eng, autoconvert):
             eng.prove(True, "autoconvert-offset-in-product-dst:refused")
         else:
             eng.prove(Eq(r, (x - v["o2"]) / v["s2"]), "autoconvert-offset-in-product-dst")
+    # arithmetic on a quantity whose units hold an offset unit next to others (degA*oth, degA/oth):
+    # refused, or -- in autoconvert mode -- computed through the base unit; never the raw number
+    # with the offset unit left in place
+    y = eng.real("y")
+    eng.assume(Not(Eq(y, 0)))
+    eng.assume(Not(Eq(x, 0)))
+    for cname, cu, cexp in (("degA*oth", {"degA": 1, "oth": 1}, 1), ("degA/oth", {"degA": 1, "oth": -1}, -1)):
+        q = ureg.Quantity(x, UC(cu))
+        b = ureg.Quantity(y, "oth")
+        for oname, fn in (("q*b", lambda: q * b), ("b*q", lambda: b * q), ("q/b", lambda: q / b), ("b/q", lambda: b / q), ("q*2", lambda: q * 2), ("2/q", lambda: 2 / q), ("q*q", lambda: q * q), ("q*rank", lambda: q * ureg.Quantity(y, "rank"))):
+            try:
+                r = fn()
+            except (OffsetUnitCalculusError, DimensionalityError):
+                eng.prove(True, f"offset-in-compound-operand:{cname}:{oname}:refused")
+                continue
+            if not autoconvert:
+                eng.fail(f"offset-in-compound-operand:{cname}:{oname}:accepted-without-autoconvert")
+            eng.prove(not any(k in ("degA", "degB") for k in r._units), f"offset-in-compound-operand:{cname}:{oname}:offset-unit-left-in-result")
     # delta units are ordinary multiplicative units in compounds
     r = ureg.convert(x, UC({"delta_degA": 1, "oth": -1}), UC({"delta_degB": 1, "oth": -1}))
     eng.prove(Eq(r, x * v["s1"] / v["s2"]), "delta-in-compound")
@@ -669,6 +741,9 @@ def cases(tier, seed):
         forms = ["to", "ito-array", "convert"] if big or (ua, ub) in (("degA", "degB"), ("degA", "kel"), ("kel", "degB"), ("delta_degA", "rank"), ("degA", "delta_degB"), ("degA", "oth"), ("oth", "degB"), ("delta_degA", "oth"), ("delta_degB", "degB")) else ["to"]
         for form in forms:
             out.append(Case("H06.b", f"{ua}->{ub}:{form}", M, "h_convert_generated", {"ua": ua, "ub": ub, "form": form}, opts=opts, validate=1))
+    for form in ("to", "convert", "ito-array"):
+        out.append(Case("H06.b", f"scaled-reference:{form}", M, "h_convert_scaled_reference", {"form": form}, opts=opts, validate=1))
+    out.append(Case("H06.d", "log-units-on-different-references", M, "h_log_scaled_reference", {}, kind="conc"))
     for ac in (False, True):
         out.append(Case("H06.b-compound", f"ac={ac}", M, "h_convert_compound", {"autoconvert": ac}, opts=opts, validate=1))
     for dad in (True, False):
